@@ -80,6 +80,37 @@ Theorem inside_sees_enclosing : forall is_upper h params args clos n v s,
 Proof. exact PkgProofs.inside_sees_enclosing. Qed.
 Print Assumptions inside_sees_enclosing.
 
+(* dot paths written INSIDE a package (cfg.a, inner.Level, (inner.Bump)): the head resolves in the
+   function's own lexical context -- parameters, then the scopes captured at definition -- and the
+   rest of the walk obeys [visible]; the caller's bindings (globals defined later are shadowed by the
+   package's own member, parameters/locals of a calling function) never reach the callee *)
+Theorem inside_dot_read_is_visible : forall is_upper h params clos args p,
+  names_ok p ->
+  verdict_of (run_body is_upper h params (BDot p) clos args)
+    = spec_path is_upper h (zip_params params args) clos p None.
+Proof. exact PkgProofs.inside_dot_read_is_visible. Qed.
+Print Assumptions inside_dot_read_is_visible.
+
+Theorem inside_dot_write_is_visible : forall is_upper h params clos a args p,
+  names_ok p ->
+  verdict_of (run_body is_upper h params (BDotSet p) clos (a :: args))
+    = spec_path is_upper h (zip_params params (a :: args)) clos p (Some a).
+Proof. exact PkgProofs.inside_dot_write_is_visible. Qed.
+Print Assumptions inside_dot_write_is_visible.
+
+Theorem inside_dot_head_is_own_member : forall h params args own outer m key v,
+  scope_map h own = Some m -> assoc m key = Some v ->
+  assoc (zip_params params args) key = None ->
+  lexical_lookup h (zip_params params args) (own :: outer) key = Some (v, Some own).
+Proof. exact PkgProofs.inside_dot_head_is_own_member. Qed.
+Print Assumptions inside_dot_head_is_own_member.
+
+Theorem caller_bindings_do_not_leak : forall is_upper h frame stack key rest args,
+  assoc frame key = None ->
+  call_path is_upper h frame stack (key :: rest) args = call_path is_upper h [] stack (key :: rest) args.
+Proof. exact PkgProofs.caller_bindings_do_not_leak. Qed.
+Print Assumptions caller_bindings_do_not_leak.
+
 (* ---- 4. non-vacuity ---- *)
 Example ex_package_in_nested_hash :
   run_op ascii_upper demo_heap (OpGet [n_h2; n_N; n_P; n_Pub]) = Ok (demo_heap, VInt 1) /\
